@@ -5,16 +5,105 @@
 
 package output
 
+// ---- C19 (crash half): well-formed decorators, established by the constructors
+//@ pred rawOK(d *rawOutputDecorator) := d != nil && d.w != nil
+//@ pred prefixedOK(d *prefixedOutputDecorator) := d != nil && d.w != nil && d.t != nil
+//@ pred cockpitOK(d *cockpitOutputDecorator) := d != nil && d.b != nil && d.t != nil
+//@ pred outputOK(o *TaskOutput) := o != nil && o.t != nil && o.decorator != nil
+
+//@ func newRawOutputWriter
+//@   requires w != nil
+//@   nomod
+//@   ensures rawOK(result) && fresh(result)
+//@ func newPrefixedOutputWriter
+//@   requires w != nil && t != nil
+//@   nomod
+//@   ensures prefixedOK(result) && fresh(result)
+//@ func newCockpitOutputWriter
+//@   requires t != nil
+//@   modifies base
+//@   ensures cockpitOK(result) && fresh(result)
+
 //@ func NewTaskOutput
-//@   nomod
-//@   ensures result#1 == nil ==> result != nil
+//@   requires t != nil && stdout != nil
+//@   modifies base
+//@   ensures result#1 == nil ==> outputOK(result) && fresh(result) && result.t == t
 //@ func (*TaskOutput).Stdout
-//@   requires o != nil
+//@   requires outputOK(o)
 //@   nomod
+//@   ensures result != nil
 //@ func (*TaskOutput).Stderr
-//@   requires o != nil
+//@   requires outputOK(o)
 //@   nomod
+//@   ensures result != nil
 //@ func (TaskOutput).Start
-//@   nomod
+//@   requires o.decorator != nil
+//@   modifies *
 //@ func (TaskOutput).Finish
+//@   requires o.decorator != nil
+//@   modifies *
+
+// the decorator interface as used by TaskOutput: header/footer may be called in any order
+// (Run calls Finish also when Start was never reached)
+//@ func DecoratedOutputWriter.WriteHeader
+//@   modifies *
+//@ func DecoratedOutputWriter.WriteFooter
+//@   modifies *
+
+//@ func (*rawOutputDecorator).Write
+//@   requires rawOK(d)
+//@   modifies *
+//@   ensures #C19.raw-forwards-once calls(Write) == 1
+//@ func (*rawOutputDecorator).WriteHeader
 //@   nomod
+//@ func (*rawOutputDecorator).WriteFooter
+//@   nomod
+//@ func (*prefixedOutputDecorator).WriteHeader
+//@   requires prefixedOK(d)
+//@   nomod
+//@ func (*prefixedOutputDecorator).WriteFooter
+//@   requires prefixedOK(d)
+//@   modifies *
+//@ func (*cockpitOutputDecorator).Write
+//@   nomod
+//@   ensures #C19.cockpit-swallows result == len(p) && result#1 == nil
+//@ func (*cockpitOutputDecorator).WriteHeader
+//@   requires cockpitOK(d)
+//@   modifies *
+//@ func (*cockpitOutputDecorator).WriteFooter
+//@   requires cockpitOK(d)
+//@   modifies *
+//@ func (*baseCockpit).add
+//@   requires b != nil && t != nil
+//@   modifies *
+// remove: t occurs at most once in the list of running tasks (every task object is started at most
+// once at a time); with a duplicate the in-place deletion inside the range loop would slice out of range
+//@ func (*baseCockpit).remove
+//@   requires b != nil && t != nil
+//@   requires #no-duplicate forall i int, j int :: 0 <= i && i < j && j < len(b.tasks) ==> !(b.tasks[i] == t && b.tasks[j] == t)
+//@   modifies *
+//@   loop 1 "range b.tasks"
+//@     invariant #same b == b0 && t == t0 && b != nil && t != nil
+//@     invariant #list-intact (forall i int :: 0 <= i && i <= rangeindex ==> old(b.tasks)[i] != t) ==> b.tasks == old(b.tasks)
+//@     invariant #elements forall i int :: 0 <= i && i < len(old(b.tasks)) ==> old(b.tasks)[i] == old(b.tasks[i])
+//@ func (*baseCockpit).start
+//@   requires b != nil
+//@   modifies *
+//@   ensures result != nil
+
+// prefixed output: Write is a driver of bufio.ScanLines — every token goes through the line
+// writer and is flushed; the chunk is consumed from the front; the caller's length is returned
+//@ func (*prefixedOutputDecorator).Write
+//@   requires prefixedOK(d)
+//@   modifies *
+//@   ensures #C19.reports-whole-chunk result#1 == nil ==> result == len(p)
+//@   loop 1 "for"
+//@     invariant #same d == d0 && prefixedOK(d) && n == len(p0)
+//@     invariant #C19.consumes-from-front len(p) <= len(p0)
+//@   callsite Flush
+//@     requires #C19.flush-after-every-line calls(Write) == calls(Flush) + 1
+//@ func (lineWriter).Write
+//@   requires l.t != nil && l.dst != nil
+//@   modifies *
+//@   ensures #C19.one-write-per-line calls(Fprintf) == 1
+//@   ensures n == len(p)
